@@ -98,6 +98,10 @@ func (db *DB) compact(sourceSeg *segment) (CompactionResult, error) {
 
 	db.mu.Lock()
 	defer db.mu.Unlock()
+	// Make sure the promoted records are durable before removing their source.
+	if err := db.datalog.sync(); err != nil {
+		return cr, err
+	}
 	err = db.datalog.removeSegment(sourceSeg)
 	return cr, err
 }
